@@ -23,7 +23,7 @@ SHRINK = 'greedy'
 SHRINK_RUNS = 40
 TIME_BUDGET = {'quick': 170, 'thorough': 1700}
 REQUIRED = {'quick': {'tuple_defaults': 60, 'mutation_visible': 60, 'falsy_result': 60, 'extra_longer_than_defaults': 40, 'interleaved': 200, 'wait_then_drain': 100,
-                      'enqueue_after_close': 40, 'call': 40, 'nested_mutable_default': 100, 'gated_schedule': 10},
+                      'enqueue_after_close': 40, 'call': 40, 'nested_mutable_default': 100, 'gated_schedule': 10, 'gated_init_schedule': 10},
             'thorough': {'tuple_defaults': 600, 'mutation_visible': 600, 'falsy_result': 400, 'interleaved': 1000}}
 
 _scalar = st.one_of(st.integers(0, 9), st.sampled_from(['s', None, 0.5]))
@@ -66,6 +66,12 @@ def exhaustive(tier, shard, nshards):
                 idx += 1
                 if idx % nshards == shard:
                     yield {'gated': True, 'k': k, 'when': when, 'reads': reads}
+    # the child thread is held before its _init_child() while the parent already uses the worker
+    for seq in (['close', 'enqueue'], ['enqueue', 'close', 'enqueue'], ['enqueue', 'enqueue'], ['close', 'close', 'enqueue']):
+        for release_at in range(0, len(seq) + 1):
+            idx += 1
+            if idx % nshards == shard:
+                yield {'gated_init': True, 'seq': seq, 'release_at': release_at}
 
 
 class _GatedEndpoint:
@@ -162,6 +168,54 @@ def run_gated(case, ctx, out):
     return out
 
 
+def run_gated_init(case, ctx, out):
+    import threading
+    from pyworkers.persistent_thread import PersistentThreadWorker
+    from pyworkers.persistent import WorkerClosedError
+    gate = threading.Event()
+
+    class HeldInit(PersistentThreadWorker):
+        def _init_child(self):
+            gate.wait(10)            # the child thread is preempted right before it initialises its side
+            super()._init_child()
+    out.label('gated_init_schedule')
+    out.nontrivial = True
+    site = 'p_thread:child_held_before_init_child'
+    w = HeldInit(vtargets.echo2, args=['D0', 'D1'])
+    accepted = 0
+    closed = False
+    try:
+        for i, op in enumerate(case['seq'] + ['end']):
+            if i == case['release_at']:
+                gate.set()
+                time.sleep(0.05)
+            if op == 'close':
+                w.close()
+                closed = True
+            elif op == 'enqueue':
+                try:
+                    w.enqueue(f'x{i}')
+                    if closed:
+                        out.viol('enqueue_after_close_accepted', site, f'sequence {case["seq"]}, child released at step {case["release_at"]}: enqueue after close() did not raise')
+                    accepted += 1
+                except WorkerClosedError:
+                    if not closed:
+                        out.viol('enqueue_raised:WorkerClosedError', site, 'enqueue on an open live worker raised WorkerClosedError')
+        gate.set()
+        ok = bounded(w.wait, 20, 10)
+        got = list(w.results_iter()) if ok else None
+        if ok is not True or w.result != accepted or got is None or len(got) != accepted:
+            out.viol('counter_mismatch', site, f'accepted {accepted} enqueues, wait={ok}, result={w.result!r}, delivered={got!r}')
+        out.obs = {'seq': case['seq'], 'release_at': case['release_at'], 'accepted': accepted}
+    finally:
+        gate.set()
+        try:
+            bounded(w.terminate, 10, 1, False)
+        except BaseException:
+            pass
+    return out
+
+
 def model_value(case, extra_args, extra_kwargs):
     d_args = [] if case['args_none'] else copy.deepcopy(case['args'])
     kw = copy.deepcopy(case['kwargs'])
@@ -179,6 +233,8 @@ def run_case(case, ctx):
     out = Out()
     if case.get('gated'):
         return run_gated(case, ctx, out)
+    if case.get('gated_init'):
+        return run_gated_init(case, ctx, out)
     kind = case['kind']
     cls = IC.KINDS[kind]
     out.label('kind:' + kind)
@@ -381,7 +437,7 @@ def _same(a, b):
 
 
 def simplify(case):
-    if case.get('gated'):
+    if case.get('gated') or case.get('gated_init'):
         return
     ops = case['ops']
     for i in range(len(ops) - 1, -1, -1):
